@@ -157,6 +157,13 @@ def route_profile(pid, agents):
         put(0, 1, 2)
         put(0, 2, 5)
         return 1, routes
+    if pid == "Rasym":
+        # declared by one end only: route(a0, a1) = 6, route(a1, a0) = default 1. Which direction a method prices is its own
+        # business, but its objective and its distribution_cost() must price the same one (the verdict compares the returned
+        # mapping with every other mapping under the method's own distribution_cost)
+        if len(agents) > 1:
+            routes[agents[0]][agents[1]] = 6
+        return 1, routes
     raise KeyError(pid)
 
 
@@ -181,7 +188,7 @@ MENU_SMALL = {
     # the four Hpin..4 profiles pin either end of the first/last link on either agent: pyDCOP reads a link's ends
     # from a frozenset, so which (computation, agent) orientation a shortcut sees depends on PYTHONHASHSEED
     "host": ["H4first", "Halt", "Hpinff4", "Hpinfl4", "Hpinlf4", "Hpinll4", "Hzero"],
-    "route": ["R5first"],
+    "route": ["R5first", "Rasym"],
     "load": ["L3last"],
 }
 MENU_FULL = {
@@ -189,7 +196,7 @@ MENU_FULL = {
     "cap": ["C2", "C3", "C2first", "C2rest"],
     "host": ["H4first", "H4last", "Halt", "Hpinff4", "Hpinfl4", "Hpinlf4", "Hpinll4", "Hpinmf4", "Hpinml4",
              "Hpinfl1", "Hpinlf1", "Hpin2", "Hzero", "Hdouble"],
-    "route": ["R5first", "R2", "Rmix"],
+    "route": ["R5first", "R2", "Rmix", "Rasym"],
     "load": ["L3last", "L3first", "L3all"],
 }
 
@@ -550,7 +557,7 @@ def run(ctx):
     ctx.rule = (
         "Instances = tiny DCOP shape (real DCOP -> real constraints hyper-graph for oilp_cgdp / factor graph for "
         "ilp_fgdp, <= 4 computations quick, <= 5 thorough) x 1..3 AgentDef x one profile per dimension (footprints "
-        "{1,2}, capacities {2,3,10}, hosting costs {0,1,4} incl. AgentDef's default 0, symmetric routes {1,2,5}, "
+        "{1,2}, capacities {2,3,10}, hosting costs {0,1,4} incl. AgentDef's default 0, symmetric routes {1,2,5} plus one route declared by one end only (6 one way, default the other way), "
         "symmetric message loads {1,3}); per block ALL combinations leaving the base profile (footprint 1, capacity "
         "10, hosting 1, route 1, load 1) in at most k of the 5 dimensions are enumerated, duplicates removed: "
         + blocks + f". Small menu {MENU_SMALL}; full menu {MENU_FULL}. "
@@ -569,8 +576,9 @@ def run(ctx):
         "CBC (msg=False, threads=1); the model handed to the solver is pyDCOP's, unchanged.",
         "CBC solves the model it is given optimally and PuLP reports its status faithfully (infeasible -> "
         "LpStatusInfeasible); how GLPK itself reports infeasibility or time-outs is not exercised.",
-        "Message loads and routes are symmetric (load(c1,c2) == load(c2,c1)): both methods read a link's ends "
-        "from a frozenset, so the direction they would query an asymmetric callable in is not defined.",
+        "Message loads are symmetric (load(c1,c2) == load(c2,c1)): both methods read a link's ends from a frozenset, so the "
+        "direction they would query an asymmetric callable in is not defined. Routes are symmetric except in the profile Rasym, "
+        "where only self-consistency is demanded (objective and distribution_cost price the same direction).",
         "AgentDef cost look-ups (hosting_cost, route, capacity attribute) are C31's subject; the reference reads "
         "the same tables from the instance specification.",
     ]
